@@ -687,7 +687,7 @@ Theorem input_query_config_bounded select subsel out_len w1 w2 size data o evs :
                       | ICRead off => off = 2 \/ (8 <= off < 8 + N.min 255 out_len)
                       end) evs.
 Proof.
-  unfold input_query_config_select. intros H.
+  unfold input_query_config_select, input_query_config_select_gen. intros H.
   destruct w1; cbn [negb] in H.
   2:{ inversion H; subst. split; [discriminate|]. split; [discriminate|]. split; [discriminate|].
       repeat constructor. }
@@ -697,6 +697,10 @@ Proof.
   destruct size as [sz|].
   2:{ inversion H; subst. split; [discriminate|]. split; [discriminate|]. split; [discriminate|].
       repeat constructor. }
+  cbn [andb] in H.
+  destruct (IN_CFG_DATA_MAX <? w8 sz).
+  { inversion H; subst. split; [discriminate|]. split; [discriminate|]. split; [discriminate|].
+    repeat constructor. }
   destruct (input_cfg_copy (N.to_nat (N.min (w8 sz) out_len)) 0 data) as [o2 e2] eqn:E2.
   destruct (input_cfg_copy_spec _ _ _ _ _ E2) as (A & B & C & D). inversion H; subst. clear H.
   split; [destruct o2; try discriminate; contradiction|].
